@@ -70,7 +70,7 @@ PROPS = {
         "cases": {"quick": {}, "thorough": {}},
         "assumptions": [
             "rustc's trait solver is modelled only for the bound shapes that occur in hannibal's API surface",
-            "the catalogue is the tie between that abstraction and rustc (62 programs, 25 entry points)",
+            "the catalogue is the tie between that abstraction and rustc (74 programs, 31 entry points)",
         ],
     },
     "C13": {
